@@ -94,7 +94,9 @@ func (f *filler) fill(v reflect.Value, depth int, path string) {
 	}
 	switch v.Kind() {
 	case reflect.Bool:
-		v.SetBool(true)
+		// random, so that two bool fields of one struct differ in about half of
+		// the fillings (a copy that cross-wires two flags is then unequal)
+		v.SetBool(f.r.Intn(2) == 0)
 	case reflect.Int, reflect.Int8, reflect.Int16, reflect.Int32, reflect.Int64:
 		v.SetInt(int64(1 + f.r.Intn(5)))
 	case reflect.Uint, reflect.Uint8, reflect.Uint16, reflect.Uint32, reflect.Uint64:
